@@ -91,11 +91,13 @@ def cli_findings():
             ('root with two modules, one nested', ['lib.rs'], '', None, ['a.rs', 'a/deep.rs', 'b.rs', 'lib.rs']),
             ('skip_children', ['--config', 'skip_children=true', 'lib.rs'], '', None, ['lib.rs']),
             ('ignore = [a.rs]', ['--config-path', 'ignore.toml', 'lib.rs'], '', None, ['a/deep.rs', 'b.rs', 'lib.rs']),
+            ('ignore = [lib.rs]: the root is ignored, its modules are not', ['--config-path', 'ignore_root.toml', 'lib.rs'], '', None, ['a.rs', 'a/deep.rs', 'b.rs']),
             ('generated module with format_generated_files=false', ['--config', 'format_generated_files=false', 'lib.rs'], 'mod gen;\n', None, ['a.rs', 'a/deep.rs', 'b.rs', 'lib.rs']),
             ('module with an inner skip attribute', ['lib.rs'], 'mod skip;\n', None, ['a.rs', 'a/deep.rs', 'b.rs', 'lib.rs']),
             ('standard input never recurses', [], '', 'mod a;\nmod b;\n' + bad, [])):
         before = setup(extra_lib)
         open(os.path.join(d, 'ignore.toml'), 'w').write('ignore = ["a.rs"]\n')
+        open(os.path.join(d, 'ignore_root.toml'), 'w').write('ignore = ["lib.rs"]\n')
         r = subprocess.run([rf] + args, input=stdin, capture_output=True, text=True, env=run_env(), timeout=60, cwd=d)
         changed = sorted(n for n in files if h(os.path.join(d, n)) != before[n])
         if changed != sorted(want):
